@@ -327,6 +327,9 @@ def family_unions():
         "hidden": [sel("id", "a", "b", "g")],
         "computed": [sel(*ints), ["mutate", [["a", fn("add", C("a"), lit(10))]]]],
         "filtered": [sel(*ints), ["filter", [fn("greater_than", C("id"), lit(3))]]],
+        # operands that are compiled as a subquery (alias after a slice / a window column)
+        "sliced_alias": [sel(*ints), ["arrange", [o(C("id"))]], ["slice_head", 6, 0], ["alias", True]],
+        "window_alias": [["mutate", [["w", fn("sum", C("a"), partition_by=[C("g")])]]], sel(*ints), ["alias", True]],
     }
     rights = {
         "plain": [sel(*ints)],
@@ -337,6 +340,7 @@ def family_unions():
         "computed": [sel(*ints), ["mutate", [["g", fn("mul", C("g"), lit(-1))]]]],
         "overwrite_then_perm": [["mutate", [["b", fn("add", C("id"), lit(100))]]], sel("b", "g", "a", "id")],
         "empty": [sel(*ints), ["filter", [fn("less_than", C("id"), lit(0))]]],
+        "sliced_alias": [sel(*ints), ["arrange", [o(C("id"), True)]], ["slice_head", 5, 1], ["alias", True]],
     }
     fols = {
         "none": [],
@@ -344,6 +348,9 @@ def family_unions():
         "mutate": [["mutate", [["m", fn("add", C("a"), C("b"))]]]],
         "arrange": [["arrange", [o(C("id")), o(C("a")), o(C("b")), o(C("g"))]]],
         "summarize": [["summarize", [["n", fn("count_star")], ["sb", fn("sum", C("b"))]]]],
+        # fewer columns are read after the union than it has: duplicates must still be decided on all of them
+        "select_subset": [["select", [C("g"), C("a")]]],
+        "group_summ": [["group_by", [C("g")], False], ["summarize", [["n", fn("count_star")]]]],
     }
     out = []
     for (ln, ls), (rn, rs), dis, (fnm, fs) in itertools.product(lefts.items(), rights.items(), (False, True), fols.items()):
